@@ -10,7 +10,7 @@ from __future__ import annotations
 import ast
 
 from mlmverif import cfg as cfgm
-from mlmverif.core import (AnalysisError, Ctx, FuncInfo, is_self_attr, unparse,
+from mlmverif.core import (parent_map, AnalysisError, Ctx, FuncInfo, is_self_attr, unparse,
                            walk_no_nested)
 from mlmverif.props import c20
 
@@ -34,11 +34,12 @@ ASSUMPTIONS = ['A task whose future is done without exception has delivered all'
 
 CW = 'chainables.courier_worker'
 ORCH = 'chainables.orchestrate'
+CS = 'chainables.courier_server'
 CU = 'utils.courier_utils'
 
 
 def run(ctx: Ctx):
-  for r in (r1, r2, r3, r4, r5):
+  for r in (r1, r2, r3, r4, r5, r6, r7):
     ctx.guard(r)
 
 
@@ -405,12 +406,200 @@ def _find(repo, module, qualname):
   raise AnalysisError(f'cannot locate {module}.{qualname}')
 
 
+_IMPLIES = {ast.Gt: (ast.Gt, ast.GtE, ast.NotEq), ast.GtE: (ast.GtE,), ast.Lt: (ast.Lt, ast.LtE, ast.NotEq),
+            ast.LtE: (ast.LtE,), ast.Eq: (ast.Eq, ast.GtE, ast.LtE), ast.NotEq: (ast.NotEq,)}
+
+
+def _conjuncts(t: ast.AST) -> list[ast.AST]:
+  if isinstance(t, ast.BoolOp) and isinstance(t.op, ast.And):
+    return [c for v in t.values for c in _conjuncts(v)]
+  return [t]
+
+
+def _implied(fact: ast.AST, goal: ast.AST) -> bool:
+  if ast.dump(fact) == ast.dump(goal):
+    return True
+  if isinstance(fact, ast.Compare) and isinstance(goal, ast.Compare) and len(fact.ops) == 1 and len(
+      goal.ops) == 1 and ast.dump(fact.left) == ast.dump(goal.left) and ast.dump(
+          fact.comparators[0]) == ast.dump(goal.comparators[0]):
+    return type(goal.ops[0]) in _IMPLIES.get(type(fact.ops[0]), ())
+  return False
+
+
+def r6(ctx: Ctx):
+  rule = 'R-C06-6'
+  ctx.rule(rule, 'giving up is never silent: every `break` that abandons the'
+           ' scheduling loop of WorkerPool.iterate while work remains is'
+           ' matched by a raise in the clean-up whose guard is implied by the'
+           ' facts that hold at the break (same comparison or a weaker one;'
+           ' lists known non-empty there) — an exhausted retry budget or a'
+           ' failed task must surface as an error, not as missing shards')
+  outer = ctx.repo.func(CW, 'WorkerPool.iterate')
+  it = _nested(outer, 'iterate')
+  pm = parent_map(it.node)
+  loops = [x for x in walk_no_nested(it.node) if isinstance(x, ast.While)]
+  if not loops:
+    raise AnalysisError(f'{rule}: scheduling loop not found')
+  main = loops[0]
+  # guarded raises of the clean-up (outside the nested function)
+  raises = []
+  opm = parent_map(outer.node)
+  for x in walk_no_nested(outer.node):
+    if isinstance(x, ast.Raise) and x.exc is not None:
+      p_ = opm.get(x)
+      if isinstance(p_, ast.If) and x in p_.body:
+        raises.append((x, _conjuncts(p_.test)))
+  n = 0
+  for b in walk_no_nested(it.node):
+    if not isinstance(b, ast.Break):
+      continue
+    # only breaks of the main loop
+    anc = []
+    q = b
+    inner_loop = None
+    while q is not main and q is not None:
+      par = pm.get(q)
+      if isinstance(par, (ast.For, ast.While)) and par is not main and inner_loop is None and (
+          q in par.body):
+        inner_loop = par
+      if isinstance(par, ast.If):
+        if q in par.body:
+          anc.extend(_conjuncts(par.test))
+          # lists extended with a non-empty list inside this branch are non-empty
+          for st in par.body:
+            if isinstance(st, ast.Expr) and isinstance(st.value, ast.Call) and isinstance(
+                st.value.func, ast.Attribute) and st.value.func.attr in ('extend', 'append') and (
+                    st.value.args):
+              if st.value.func.attr == 'append' or any(
+                  ast.dump(st.value.args[0]) == ast.dump(f) for f in anc):
+                anc.append(st.value.func.value)
+      q = par
+    if q is None or inner_loop is not None:
+      continue
+    n += 1
+    match = None
+    for r_, goals in raises:
+      if all(any(_implied(f, g_) for f in anc) for g_ in goals):
+        match = r_
+    facts = ' and '.join(unparse(f) for f in anc) or 'True'
+    if match is not None:
+      ctx.ok(rule, it, f'break under [{facts}] is raised as {unparse(match.exc)[:40]}', b)
+    else:
+      ctx.fail(rule, it, f'WorkerPool.iterate: break under [{facts}] => raise in the clean-up',
+               f'the scheduling loop is abandoned when [{facts}] but no raise in'
+               ' the clean-up is guaranteed to fire then (guards: '
+               + '; '.join(' and '.join(unparse(g_) for g_ in goals) for _, goals in raises)
+               + '): the remaining tasks/shards are silently missing from the result',
+               node=b)
+  ctx.floor(rule, 2, n)
+
+
+def registry_store_kinds(repo) -> dict[str, str]:
+  """WorkerRegistry method -> 'set' | 'guarded' | 'kill' (how it stores the table)."""
+  ci = repo.cls('utils.courier_utils', 'WorkerRegistry')
+  out = {}
+  for name, fi in ci.methods.items():
+    if name.startswith('__'):
+      continue
+    pm = parent_map(fi.node)
+    for x in walk_no_nested(fi.node):
+      if isinstance(x, ast.Assign) and any(
+          isinstance(t, ast.Subscript) and is_self_attr(t.value, 'data') for t in x.targets):
+        if isinstance(x.value, ast.Constant) and x.value.value is None:
+          kind = 'kill'
+        else:
+          kind = 'set'
+          q = x
+          while q is not fi.node:
+            par = pm.get(q)
+            if isinstance(par, ast.If) and q in par.body and any(
+                isinstance(c, ast.Compare) and isinstance(c.ops[0], ast.IsNot) and isinstance(
+                    c.comparators[0], ast.Constant) and c.comparators[0].value is None
+                for c in ast.walk(par.test)):
+              kind = 'guarded'
+            q = par
+        prev = out.get(name)
+        out[name] = kind if prev in (None, kind) else 'mixed'
+  return out
+
+
+def r7(ctx: Ctx):
+  rule = 'R-C06-7'
+  ctx.rule(rule, 'a worker can rejoin: the server\'s heartbeat handler answers an'
+           ' "alive" announcement with a registry method that stores the'
+           ' heartbeat unconditionally (clearing a dead mark) and a "dead"'
+           ' announcement with the method that stores the dead mark — the'
+           ' guarded refresh (dead stays dead, C20) is for client-side stale'
+           ' heartbeats only')
+  repo = ctx.repo
+  kinds = registry_store_kinds(repo)
+  if sorted(kinds.values()) != ['guarded', 'kill', 'set']:
+    raise AnalysisError(f'{rule}: registry store methods are {kinds}')
+  fi = repo.func(CS, 'CourierServer._heartbeat')
+  ps = fi.params()
+  if len(ps) < 3:
+    raise AnalysisError(f'{rule}: _heartbeat signature {ps}')
+  alive_p = ps[2]
+  pm = parent_map(fi.node)
+  got = {True: set(), False: set()}
+  for c in walk_no_nested(fi.node):
+    if isinstance(c, ast.Call) and isinstance(c.func, ast.Attribute) and c.func.attr in kinds and (
+        'registry' in unparse(c.func.value)):
+      q = c
+      pol = None
+      while q is not fi.node:
+        par = pm.get(q)
+        if isinstance(par, ast.If):
+          t = par.test
+          neg = isinstance(t, ast.UnaryOp) and isinstance(t.op, ast.Not)
+          if neg:
+            t = t.operand
+          if isinstance(t, ast.Name) and t.id == alive_p:
+            in_body = any(q is b_ or q in ast.walk(b_) for b_ in par.body)
+            pol = in_body != neg
+        q = par
+      if pol is None:
+        raise AnalysisError(f'{rule}: registry call outside the `{alive_p}` branches')
+      got[pol].add((kinds[c.func.attr], c.func.attr, c))
+  for pol, want, text in ((True, 'set', 'alive announcement re-registers'),
+                          (False, 'kill', 'dead announcement marks dead')):
+    ks = {k for k, _, _ in got[pol]}
+    if ks == {want}:
+      ctx.ok(rule, fi, f'{text} ({sorted(n_ for _, n_, _ in got[pol])})', fi.node)
+    else:
+      node = next((c for _, _, c in got[pol]), fi.node)
+      ctx.fail(rule, fi, f'CourierServer._heartbeat({alive_p}={pol}) => registry {want}',
+               f'for {alive_p}={pol} the handler calls {sorted((n_, k) for k, n_, _ in got[pol])}'
+               f' instead of an unconditional `{want}` store: a worker that'
+               ' announced its death (or timed out) and comes back can never be'
+               ' used again / a dead worker is not marked dead', node=node)
+  ctx.floor(rule, 2)
+
+
 from mlmverif.selfcheck import B, OK  # noqa: E402
 
 _W = 'chainables/courier_worker.py'
 _O = 'chainables/orchestrate.py'
 _U = 'utils/courier_utils.py'
 VARIANTS = [
+    B('alive-heartbeat-only-refreshes', 'chainables/courier_server.py',
+      '      courier_utils.worker_registry().register(\n          sender_addr, self._last_heartbeat\n      )',
+      '      courier_utils.worker_registry().refresh(\n          sender_addr, self._last_heartbeat\n      )',
+      'R-C06-7'),
+    OK('heartbeat-branches-swapped-with-not', 'chainables/courier_server.py',
+       '    if is_alive:\n      # Assign the heartbeat directly as server side heartbeat precededs the\n      # client side one.\n      courier_utils.worker_registry().register(\n          sender_addr, self._last_heartbeat\n      )\n    else:\n      courier_utils.worker_registry().unregister(sender_addr)',
+       '    if not is_alive:\n      courier_utils.worker_registry().unregister(sender_addr)\n    else:\n      courier_utils.worker_registry().register(\n          sender_addr, self._last_heartbeat\n      )'),
+    B('give-up-at-threshold-raise-above', _W,
+      '          if timeout_cnt > retry_threshold:\n            break',
+      '          if timeout_cnt >= retry_threshold:\n            break', 'R-C06-6'),
+    B('failed-break-without-recording', _W,
+      '          failed_tasks.extend(new_failed_tasks)\n          break',
+      '          break', 'R-C06-6'),
+    OK('give-up-both-at-threshold', _W,
+       '          if timeout_cnt > retry_threshold:\n            break',
+       '          if timeout_cnt >= retry_threshold:\n            break',
+       extra=((_W, '      if timeout_cnt > retry_threshold and timeout_tasks:',
+               '      if timeout_cnt >= retry_threshold and timeout_tasks:'),)),
     B('retry-forgets-future', _W,
       "                'chainable: %s', f'worker timeout, worker: {task.worker}'\n            )\n            timeout_tasks.append(task.set(_exc=None))",
       "                'chainable: %s', f'worker timeout, worker: {task.worker}'\n            )\n            timeout_tasks.append(task.set(_exc=None, state=None))",
